@@ -19,7 +19,7 @@ Derived(b, o) ==
     IF o.n # Len(b.entries) THEN "length"
     ELSE IF o.cur # Total(b.entries) THEN "current-beat-is-total"
     ELSE IF o.space # SpaceLeft(b) THEN "current-plus-space-is-length"
-    ELSE IF o.full # IsFull(b) THEN "is-full"
+    ELSE IF o.full # IsFull(b) THEN (IF b.len = 0 /\ b.meter[1] = 0 THEN "bar-of-length-zero-with-entries-not-full" ELSE "is-full")
     ELSE IF ~ResiduesOk(o) THEN "float-drift"
     ELSE "ok"
 Expected(s, line) ==
@@ -40,7 +40,8 @@ Clause(s, line) ==
     [] line.op \in {"place_notes", "place_rest", "plus"} ->
          LET exp == Expected(s, line) accepted == exp # s obs == ObsState(line.obs) IN
          IF ~line.ok THEN "operation-raised"
-         ELSE IF line.ret # accepted THEN "placement-accepted-exactly-when-it-fits"
+         ELSE IF line.ret # accepted THEN (IF line.ret /\ s.meter[1] = 0 /\ s.meter[2] >= 1 THEN "bar-of-length-zero-takes-a-placement"      \* a meter of count 0 with a beat unit: length 0, not the unbounded (0,0) meter
+                                          ELSE "placement-accepted-exactly-when-it-fits")
          ELSE IF ~accepted /\ obs # s THEN "refused-placement-changes-nothing"
          ELSE IF accepted /\ Len(obs.entries) # Len(s.entries) + 1 THEN "accepted-placement-appends-one-entry"
          ELSE IF accepted /\ obs.entries[Len(obs.entries)].t # exp.entries[Len(exp.entries)].t THEN "entry-value"
